@@ -1114,6 +1114,9 @@ func rangeOrder(info *types.Info, fd *ast.FuncDecl, fields map[string]bool) []st
 	return rangeOrderCtx(nil, info, fd, fields, map[string]bool{}, 0)
 }
 
+// rangeOrderNeedsWrite: set while the printer's side is read off (see rangeOrderCtx).
+var rangeOrderNeedsWrite bool
+
 // rangeOrderCtx lists, in execution order, the first range over each of the
 // receiver's fields; calls of methods on the same receiver are followed (a
 // printer split into section methods).
@@ -1133,6 +1136,28 @@ func rangeOrderCtx(c *Ctx, info *types.Info, fd *ast.FuncDecl, fields map[string
 			id, ok := unparen(se.X).(*ast.Ident)
 			if !ok || info.ObjectOf(id) != recv || !fields[se.Sel.Name] || seen[se.Sel.Name] {
 				return true
+			}
+			// on the printer's side only loops that emit something count: a loop that numbers the
+			// locals of every function ahead of the first write is not a section of the output
+			if rangeOrderNeedsWrite {
+				emits := false
+				ast.Inspect(n.Body, func(m ast.Node) bool {
+					if call, ok := m.(*ast.CallExpr); ok {
+						if isWriteCall(info, call) != nil {
+							emits = true
+						}
+						if se2, ok := unparen(call.Fun).(*ast.SelectorExpr); ok && (strings.HasPrefix(se2.Sel.Name, "Fprint") || strings.HasPrefix(se2.Sel.Name, "Write") || se2.Sel.Name == "LLString" || se2.Sel.Name == "String") {
+							emits = true
+						}
+						if id2, ok := unparen(call.Fun).(*ast.Ident); ok && (strings.HasPrefix(id2.Name, "write") || strings.HasPrefix(id2.Name, "print")) {
+							emits = true
+						}
+					}
+					return !emits
+				})
+				if !emits {
+					return true
+				}
 			}
 			seen[se.Sel.Name] = true
 			out = append(out, se.Sel.Name)
@@ -1174,7 +1199,10 @@ func ruleNUMORDER(c *Ctx) []Obligation {
 	} else {
 		// the printer's order is read off WriteTo and the section methods it calls — not off the
 		// numbering routine, which WriteTo calls first
-		a, b := rangeOrderCtx(c, info, num, fields, map[string]bool{}, 0), rangeOrderCtx(c, info, wt, fields, map[string]bool{}, 0, num)
+		a := rangeOrderCtx(c, info, num, fields, map[string]bool{}, 0)
+		rangeOrderNeedsWrite = true
+		b := rangeOrderCtx(c, info, wt, fields, map[string]bool{}, 0, num)
+		rangeOrderNeedsWrite = false
 		o.Pos = c.pos(num.Pos())
 		if strings.Join(a, ",") != strings.Join(b, ",") {
 			o.Verdict = VIOL
